@@ -638,7 +638,8 @@ async def timeout_is_a_timeouterror_wherever_the_component_hangs():
     is waiting in an awaitable that is not a native coroutine (anext() of an async generator, aclose())"""
     from asphalt.core import Component, start_component
     out = []
-    for how in ("anext", "sleep"):
+    import time
+    for how in ("anext", "sleep", "shielded-last-step", "thread-last-step"):
         async def agen():
             await anyio.sleep(30)
             yield 1
@@ -647,6 +648,13 @@ async def timeout_is_a_timeouterror_wherever_the_component_hangs():
             async def start(self):
                 if how == "anext":
                     await anext(agen(), None)
+                elif how == "shielded-last-step":
+                    # the timeout strikes during a step that cannot be interrupted and is the last thing start()
+                    # does: the startup did not finish within the timeout all the same
+                    with anyio.CancelScope(shield=True):
+                        await anyio.sleep(0.7)
+                elif how == "thread-last-step":
+                    await anyio.to_thread.run_sync(time.sleep, 0.7)
                 else:
                     await anyio.sleep(30)
         async with Context():
@@ -1305,7 +1313,159 @@ async def every_registration_of_a_component_is_torn_down():
     return ok, f"leases={pool.leases}, released during the block={during[1]}, released after it={pool.released}, others={log}"
 
 
-SCENARIOS = {f.__name__: f for f in (every_registration_of_a_component_is_torn_down, generic_alias_types_are_found_by_every_lookup, optional_injection_is_the_optional_lookup, start_value_and_failed_starts, hard_coded_kwargs_reach_the_child_as_they_are,
+async def timeout_watches_every_tree():
+    """C07: if startup does not finish within the timeout, TimeoutError is raised -- for EVERY tree: also when the
+    component that hangs sits below a plain container (`Component` with children from the configuration) of which
+    another, childless, instance was seen first -- in the same tree, or in an earlier start_component() call"""
+    from asphalt.core import Component, start_component
+
+    class Staller(Component):
+        async def start(self):
+            await anyio.sleep(30)
+    out = {}
+
+    async def attempt(label, root, config):
+        async with Context():
+            try:
+                with anyio.fail_after(3):
+                    await start_component(root, config, timeout=0.2)
+                out[label] = "returned"
+            except TimeoutError as e:
+                out[label] = "TimeoutError" if "component tree" in str(e) else "the harness's own deadline (startup hung)"
+            except BaseException as e:  # noqa
+                out[label] = type(e).__name__ + ": " + str(e)[:80]
+    await attempt("same tree", Component, {"components": {"a": {"type": Component},
+                                                         "b": {"type": Component, "components": {"stall": {"type": Staller}}}}})
+    await attempt("trivial first", Component, {})
+    await attempt("then stalling", Component, {"components": {"stall": {"type": Staller}}})
+    want = {"same tree": "TimeoutError", "trivial first": "returned", "then stalling": "TimeoutError"}
+    return out == want, f"{out}"
+
+
+async def factories_waiting_on_each_other_complete():
+    """C05 (and C04): every ACYCLIC pattern of siblings waiting for each other's resources completes -- also when the
+    waiting happens inside asynchronous resource factories: generating one resource must not hold up the generation
+    of an unrelated one (A's factory waits for B; B's publisher first needs factory-made C), and a factory may itself
+    need another factory-made resource (D's factory awaits C)"""
+    from asphalt.core import Component, add_resource, add_resource_factory, get_resource, start_component
+    got = {}
+
+    class TA:
+        pass
+
+    class TB:
+        pass
+
+    class TC:
+        pass
+
+    class TD:
+        pass
+
+    class Root(Component):
+        def __init__(self):
+            self.add_component("provider_b", ProviderB)
+            self.add_component("consumer", Consumer)
+            self.add_component("chained", Chained)
+
+        async def prepare(self):
+            async def make_a():
+                got["b_in_factory"] = await get_resource(TB)
+                return TA()
+
+            async def make_c():
+                await anyio.sleep(0.01)
+                return TC()
+
+            async def make_d():
+                got["c_in_factory"] = await get_resource(TC)
+                return TD()
+            add_resource_factory(make_a, types=[TA])
+            add_resource_factory(make_c, types=[TC])
+            add_resource_factory(make_d, types=[TD])
+
+    class Consumer(Component):
+        async def start(self):
+            got["a"] = await get_resource(TA)
+
+    class ProviderB(Component):
+        async def start(self):
+            await anyio.sleep(0.1)            # the consumer's request for A is under way by now
+            got["c"] = await get_resource(TC)
+            add_resource(TB())
+
+    class Chained(Component):
+        async def start(self):
+            got["d"] = await get_resource(TD)
+    err = None
+    async with Context():
+        try:
+            with anyio.fail_after(5):
+                await start_component(Root, {}, timeout=2)
+        except BaseException as e:  # noqa
+            err = f"{type(e).__name__}: {str(e)[:100]}" + (f" caused by {e.__cause__!r}"[:160] if e.__cause__ else "")
+    ok = err is None and isinstance(got.get("a"), TA) and isinstance(got.get("d"), TD) and isinstance(got.get("c"), TC) \
+        and got.get("c") is got.get("c_in_factory")
+    return ok, f"error={err}, got={ {k: type(v).__name__ for k, v in got.items()} }"
+
+
+async def nested_tree_publications_release_waiters():
+    """C06 (and C14): a tree started with start_component() from inside the start() of a component deployed under an
+    alias `kind/name` publishes under the names ITS components give: whoever waits for (Thing, 'default') -- inside
+    the nested tree or beside it -- is released by the nested publisher, before or after the request"""
+    from asphalt.core import Component, add_resource, get_resource, start_component
+    got = {}
+
+    class Thing:
+        pass
+
+    class Early:
+        pass
+
+    class InnerProvider(Component):
+        async def prepare(self):
+            add_resource(Early())               # published before anybody asks
+
+        async def start(self):
+            await anyio.sleep(0.1)
+            add_resource(Thing())               # published after the requests began
+
+    class InnerConsumer(Component):
+        async def start(self):
+            got["inner.early"] = await get_resource(Early)
+            got["inner"] = await get_resource(Thing)
+
+    class InnerRoot(Component):
+        def __init__(self):
+            self.add_component("provider", InnerProvider)
+            self.add_component("consumer", InnerConsumer)
+
+    class Host(Component):
+        async def start(self):
+            await start_component(InnerRoot, {}, timeout=2)
+            got["host"] = await get_resource(Thing)
+
+    class Beside(Component):
+        async def start(self):
+            got["beside"] = await get_resource(Thing)
+
+    class Root(Component):
+        def __init__(self):
+            self.add_component("subsystem/main", Host)
+            self.add_component("beside", Beside)
+    err = None
+    async with Context():
+        try:
+            with anyio.fail_after(6):
+                await start_component(Root, {}, timeout=3)
+        except BaseException as e:  # noqa
+            err = f"{type(e).__name__}: {str(e)[:100]}"
+    ok = err is None and all(isinstance(got.get(k), Thing) for k in ("inner", "host", "beside")) \
+        and got["inner"] is got["host"] is got["beside"] and isinstance(got.get("inner.early"), Early)
+    return ok, f"error={err}, got={ {k: type(v).__name__ for k, v in got.items()} }"
+
+
+SCENARIOS = {f.__name__: f for f in (factories_waiting_on_each_other_complete, nested_tree_publications_release_waiters, timeout_watches_every_tree, every_registration_of_a_component_is_torn_down, generic_alias_types_are_found_by_every_lookup, optional_injection_is_the_optional_lookup, start_value_and_failed_starts, hard_coded_kwargs_reach_the_child_as_they_are,
                                      overriding_signal_has_its_own_event_class, second_half_runs_at_the_outer_teardown, rejected_add_registers_no_callback,
                                      wait_finished_means_completely_finished, dead_iterator_inside_its_block_disturbs_nobody,
                                      racing_lookups_generate_once, failing_factory_leaves_the_current_context_alone,
